@@ -1,7 +1,9 @@
 package trzsz
 
 import (
+	"bytes"
 	"fmt"
+	"math/rand"
 	"os"
 	"path/filepath"
 	"strings"
@@ -463,9 +465,76 @@ func vScenarioC18(rc *runCtx) {
 			return d
 		}
 	}
+	// the sender may have made its chunks smaller shortly before (one acknowledgement took seconds): what it had
+	// already encoded at the old size now goes out in several pieces, and the pause may begin between two of them
+	shrinkFirst := !hiccup && !peerDies && cfg.upload && cfg.timeout >= 5 && tp.Bool("c18.shrinkfirst", 500)
+	if _, enum := rc.enumInt("enum_kind"); enum {
+		shrinkFirst = false
+	}
+	pauseArmed := armed
+	if shrinkFirst {
+		// a first file long enough for plenty of data to be left when the late acknowledgement has come
+		big := make([]byte, 300000+tp.Draw("c18.shrinkbig", 300000))
+		rand.New(rand.NewSource(int64(tp.Draw("c18.shrinkseed", 1<<30)))).Read(big)
+		bp := filepath.Join(rc.dir, "src", "zz-long-first.bin")
+		vWriteFile(bp, big)
+		o.srcPaths = append([]string{bp}, o.srcPaths...)
+		// a line of limited capacity behind a small pipe: the sender's writes take their time, piece by piece
+		o.profile.serial, o.profile.bytesPerMs, o.profile.pipeCap = true, []int{50, 100, 200}[tp.Draw("c18.shrinkbw", 3)], []int{2048, 8192}[tp.Draw("c18.shrinkpipe", 2)]
+		o.profile.latPm = 0
+		for _, l := range append(append([]*verifsim.Link{}, x.up...), x.down...) {
+			o.profile.apply(l)
+		}
+		slowDone, slowStarted := false, false
+		slowFor := time.Duration(3000+tp.Draw("c18.slowack", 1500)) * time.Millisecond
+		slowAt := 2 + tp.Draw("c18.slowat", 6)
+		calls := 0
+		w.Disk = &verifsim.DiskFaults{OnWrite: func(call int, f *os.File) {
+			if slowStarted || !armed() || verifsim.CurProc() != x.server {
+				return
+			}
+			calls++
+			if calls >= slowAt {
+				slowStarted = true
+				rc.fault("acknowledgement-seconds-late")
+				verifsim.Sleep(slowFor)
+				slowDone = true
+			}
+		}}
+		// the pause begins right at one of the first data writes the client makes once the late acknowledgement
+		// is on its way back
+		piecesAfter, skip := 0, tp.Draw("c18.shrinkskip", 4)
+		prevUp := x.up[0].OnWrite
+		x.up[0].OnWrite = func(l *verifsim.Link, d []byte) {
+			if prevUp != nil {
+				prevUp(l, d)
+			}
+			if slowDone && bytes.HasPrefix(d, []byte("#DATA:")) {
+				piecesAfter++
+			}
+		}
+		pauseArmed = func() bool { return slowDone && piecesAfter > skip }
+		pm = 1000
+	}
+	type promptEv struct {
+		step int64
+		at   time.Duration
+	}
+	var prompts []promptEv // every drawing of the question (it is drawn again at each key)
+	{
+		prev := x.term.OnWrite
+		x.term.OnWrite = func(l *verifsim.Link, d []byte) {
+			if prev != nil {
+				prev(l, d)
+			}
+			if bytes.Contains(d, []byte("Are you sure you want to stop")) {
+				prompts = append(prompts, promptEv{int64(w.Steps), w.Now()})
+			}
+		}
+	}
 	var arm func()
 	arm = func() {
-		vOnChunk(rc, x, armed, pm, func() {
+		vOnChunk(rc, x, pauseArmed, pm, func() {
 			rc.fault("pause")
 			x.paused = true
 			if peerDies && !peerDead {
@@ -565,6 +634,39 @@ func vScenarioC18(rc *runCtx) {
 		}
 		if n == 0 && win.to-win.from > 300*time.Millisecond {
 			rc.w.Probe("pause-window-quiet")
+		}
+	}
+	// the same by order of events: once the question is on the screen the pause is in force; the one write that had
+	// passed the pause check just before may still follow, a second one may not
+	for _, win := range wins {
+		shown := int64(-1)
+		for _, p := range prompts {
+			if p.at >= win.from-25*time.Millisecond && p.at < win.to {
+				shown = p.step // its first drawing in this pause
+				break
+			}
+		}
+		if shown < 0 {
+			continue
+		}
+		n := 0
+		var first string
+		for _, e := range evs {
+			if int64(e.Step) <= shown || e.T >= win.to || e.Off+e.N > len(up) {
+				continue
+			}
+			chunk := string(up[e.Off : e.Off+e.N])
+			if strings.HasPrefix(chunk, "#DATA:") && !strings.HasPrefix(chunk, "#DATA:=") {
+				n++
+				if first == "" {
+					first = vClip(chunk, 30)
+				}
+			}
+		}
+		rc.res.Scenario["data_after_question"] = fmt.Sprint(rc.res.Scenario["data_after_question"], " ", n)
+		if n > 1 {
+			rc.violate("data-while-paused", "C18:data-after-question", "the client wrote %d data messages after the stop/continue question had appeared on the screen and before it was answered at %v (first %q)", n, win.to, first)
+			return
 		}
 	}
 	if rep.clientOK && rep.serverOK {
